@@ -26,6 +26,7 @@ RULE = ('Hypothesis generates cube packages and per-file packages (SED files in 
         'the models, 1..5 selected fits, a display mode from {interp, largest, largest+smallest, all} and the input form '
         '(object or file). One evaluation = one fit + one plot() call. Non-trivial = >= 2 selected fits and (multi-aperture '
         'package or >= 2 distinct filter apertures); distinct = distinct canonical JSON.')
+RULE += (' ' + 'Also varied: the result re-ranked by FitInfo.sort() before plotting.')
 ASSUMPTIONS = [
     'curves are compared at 1.5e-3 relative (plot.py rounds kpc to 3.086e21 cm and c to 3e8 m/s)',
     'for apertures beyond the table the composite curve may use 0.999 x the largest aperture: any value between the '
